@@ -4,6 +4,7 @@ import (
 	"errors"
 	"fmt"
 	"math/big"
+	"regexp"
 	"sort"
 	"strconv"
 	"strings"
@@ -516,6 +517,17 @@ func cmpNum(a, b Val) (int, bool) {
 	return x.Cmp(y), true
 }
 
+var reNumeral = regexp.MustCompile(`^[+-]?(\d+\.?\d*|\.\d+)([eE][+-]?\d+)?$`)
+
+// numeral: the number a string spells, if it is a decimal numeral.
+func numeral(s string) (*big.Rat, bool) {
+	if !reNumeral.MatchString(s) {
+		return nil, false
+	}
+	r, ok := new(big.Rat).SetString(s)
+	return r, ok
+}
+
 func valEq(a, b Val) (bool, error) {
 	if _, isFrac := a.(Frac); isFrac {
 		if c, ok := cmpNum(a, b); ok {
@@ -534,6 +546,12 @@ func valEq(a, b Val) (bool, error) {
 		}
 	case string:
 		if y, ok := b.(string); ok {
+			// two numerals are compared as numbers however they are spelled ("numeric comparison": '007' == '7.0')
+			if rx, ok1 := numeral(x); ok1 {
+				if ry, ok2 := numeral(y); ok2 {
+					return rx.Cmp(ry) == 0, nil
+				}
+			}
 			return x == y, nil
 		}
 	}
